@@ -126,7 +126,8 @@ def check_cfg(k, tier, acc, only=None, via_json=False, via_b64=False):
     case0 = {"tier": tier, "k": k, "cfg": name, "via_json": via_json, "via_b64": via_b64}
     clear_caches()
     try:
-        cfg, _ = bind(ast)
+        # every fourth configurator over items that are instances of a user-defined subclass of puan.variable
+        cfg, _ = bind(ast, leaf_subclass=(k % 4 == 2 and not via_json))
         if via_json:
             import json as _json
             if cfg.errors():
